@@ -4,3 +4,7 @@ import Spade.Properties.C18
 #print axioms Spade.C18_radius_formula
 #print axioms Spade.C18_center_numerators
 #print axioms Spade.C18_direction_rot90
+#print axioms Spade.C18_code_links
+#print axioms Spade.C18_code_from_to
+#print axioms Spade.C18_code_circulation
+#print axioms Spade.C18_code_direction
